@@ -1021,6 +1021,7 @@ def transform(fn, proceed, to_instrument=True, set_conformer=True):
     new_fn = _compile(filename, new_tree, freevars)
 
     fname = fn.__name__
+    has_save = fname in glb
     save = glb.get(fname, None)
     exec(new_fn, glb, glb)
 
@@ -1046,7 +1047,10 @@ def transform(fn, proceed, to_instrument=True, set_conformer=True):
     glb[fnsym] = actual_fn
 
     # However, we don't want to change the existing mapping of fn
-    glb[fname] = save
+    if has_save:
+        glb[fname] = save
+    else:
+        glb.pop(fname, None)
 
     all_vars = transformer.used | transformer.assigned
 
